@@ -84,6 +84,24 @@ def run(sources, name, thing):
         return "error", str(e)
 
 
+def run_incrementally(sources, name, thing):
+    """the same sources handed over one by one (ConfigManager.add_config_source), the section collapsed after every step: what an earlier
+    collapse left in the manager must not show in a later one"""
+    from pkgcore.config import basics, central, errors
+    mk = lambda src: {n: basics.HardCodedConfigSection(dict(d)) for n, d in src.items()}
+    mgr = central.ConfigManager([mk(sources[0])])
+    out = None
+    for i, src in enumerate(sources):
+        if i:
+            mgr.add_config_source(mk(src))
+        try:
+            c = mgr.collapse_named_section(name)
+            out = ("ok", {k: v for k, v in dict(c.config).items() if k not in SPECIAL})
+        except errors.ConfigurationError as e:
+            out = ("error", str(e))
+    return out
+
+
 def enum_graphs(seed):
     import os
     thorough = os.environ.get("VERIF_TIER") == "thorough"
@@ -101,6 +119,16 @@ def enum_graphs(seed):
         if got[0] != want[0] or (got[0] == "ok" and got[1] != want[1]):
             if len(fails) < 5:
                 fails.append({"model": {"sources": sources}, "detail": f"{label}: sources {sources}: collapsing 's' gives {got}; breadth-first reference {want}"})
+        if len(sources) > 1:
+            cases += 1
+            try:
+                got2 = run_incrementally(sources, "s", thing)
+            except Exception as e:
+                got2 = ("raised", f"{type(e).__name__}: {e}")
+            if got2[0] != want[0] or (got2[0] == "ok" and got2[1] != want[1]):
+                if len(fails) < 5:
+                    fails.append({"model": {"sources": sources, "added_one_by_one": True}, "detail": f"{label}: sources {sources} added one by one with 's' collapsed after each: the last collapse gives {got2}; "
+                                                                                                       f"a manager built from all of them (breadth-first reference) gives {want}"})
     keys = ("k1", "k2", "k3")
 
     frnd = random.Random(seed + 77)
@@ -169,7 +197,7 @@ def enum_graphs(seed):
     for b in bad:
         check(b, "must be reported as an error")
     return {"name": "C43.collapse.bounded_enumeration", "bound": f"8 tree shapes over <= 5 sections (two ordered parents, two levels) x {120 if thorough else 40} seeded key assignments, each with one source, with a second source redefining a section and with further sources redefining the collapsed section "
-            "(self-inherit through the sources at any position among the bases); 6 cyclic / dangling graphs", "cases": cases, "failures": fails}
+            "(self-inherit through the sources at any position among the bases), every multi-source case also with the sources added one by one and the section collapsed after each; 6 cyclic / dangling graphs", "cases": cases, "failures": fails}
 
 
 def t_render_value(ex):
@@ -241,7 +269,7 @@ def t_render_value(ex):
 
 
 def tasks():
-    return [Task("C43.collapse", None, [(CEN, "ConfigManager._get_inherited_sections"), (CEN, "ConfigManager.collapse_section")], enumerate=enum_graphs),
+    return [Task("C43.collapse", None, [(CEN, "ConfigManager._get_inherited_sections"), (CEN, "ConfigManager.collapse_section"), (CEN, "ConfigManager.add_config_source"), (CEN, "ConfigManager.collapse_named_section")], enumerate=enum_graphs),
             Task("C43.render_value", t_render_value, [(CEN, "_ConfigStack.render_value")])]
 
 
